@@ -41,12 +41,35 @@ pub mod time {
         pub fn subsec_nanosecond(&self) -> i32 { ((self.0 & 3) as i32) * TICK_NANOS as i32 }
         pub fn from_second(s: i64) -> Result<Timestamp, ()> { s.checked_mul(TICKS_PER_SEC).map(Timestamp).ok_or(()) }
         pub fn from_millisecond(ms: i64) -> Result<Timestamp, ()> { Ok(Timestamp(ms / 250)) }
-        pub fn checked_add(self, d: std::time::Duration) -> Result<Timestamp, ()> { self.0.checked_add(verif_ticks(d)).map(Timestamp).ok_or(()) }
-        pub fn checked_sub(self, d: std::time::Duration) -> Result<Timestamp, ()> { self.0.checked_sub(verif_ticks(d)).map(Timestamp).ok_or(()) }
-        pub fn saturating_add(self, d: std::time::Duration) -> Timestamp { Timestamp(self.0.saturating_add(verif_ticks(d))) }
-        pub fn saturating_sub(self, d: std::time::Duration) -> Timestamp { Timestamp(self.0.saturating_sub(verif_ticks(d))) }
+        // jiff: `checked_*` / `saturating_*` take anything that converts into `TimestampArithmetic` (a std
+        // `Duration`, a `SignedDuration`, a `Span`) and return a `Result` (`saturating_*` too: a `Span` with
+        // calendar units is an error there)
+        pub fn checked_add<A: Into<TimestampArithmetic>>(self, d: A) -> Result<Timestamp, Error> { self.0.checked_add(d.into().0).map(Timestamp).ok_or(Error) }
+        pub fn checked_sub<A: Into<TimestampArithmetic>>(self, d: A) -> Result<Timestamp, Error> { self.0.checked_sub(d.into().0).map(Timestamp).ok_or(Error) }
+        pub fn saturating_add<A: Into<TimestampArithmetic>>(self, d: A) -> Result<Timestamp, Error> { Ok(Timestamp(self.0.saturating_add(d.into().0))) }
+        pub fn saturating_sub<A: Into<TimestampArithmetic>>(self, d: A) -> Result<Timestamp, Error> { Ok(Timestamp(self.0.saturating_sub(d.into().0))) }
         pub fn duration_since(self, o: Timestamp) -> SignedDuration { SignedDuration(self.0 - o.0) }
         pub fn duration_until(self, o: Timestamp) -> SignedDuration { SignedDuration(o.0 - self.0) }
+    }
+    /// opaque jiff error
+    #[derive(Debug, Clone, Copy)]
+    pub struct Error;
+    impl std::fmt::Display for Error {
+        fn fmt(&self, f: &mut std::fmt::Formatter<'_>) -> std::fmt::Result { f.write_str("jiff error") }
+    }
+    impl std::error::Error for Error {}
+    /// a span of time handed to timestamp arithmetic, in ticks
+    #[derive(Clone, Copy)]
+    pub struct TimestampArithmetic(i64);
+    impl From<std::time::Duration> for TimestampArithmetic { fn from(d: std::time::Duration) -> Self { TimestampArithmetic(verif_ticks(d)) } }
+    impl From<SignedDuration> for TimestampArithmetic { fn from(d: SignedDuration) -> Self { TimestampArithmetic(d.0) } }
+    impl std::ops::Add<SignedDuration> for Timestamp {
+        type Output = Timestamp;
+        fn add(self, d: SignedDuration) -> Timestamp { Timestamp(self.0 + d.0) }
+    }
+    impl std::ops::Sub<SignedDuration> for Timestamp {
+        type Output = Timestamp;
+        fn sub(self, d: SignedDuration) -> Timestamp { Timestamp(self.0 - d.0) }
     }
     impl std::ops::Sub<std::time::Duration> for Timestamp {
         type Output = Timestamp;
@@ -78,6 +101,12 @@ pub mod time {
         pub fn is_positive(&self) -> bool { self.0 > 0 }
         pub fn unsigned_abs(&self) -> std::time::Duration { verif_duration(self.0.abs()) }
         pub fn from_secs(s: i64) -> SignedDuration { SignedDuration(s * TICKS_PER_SEC) }
+        pub fn from_millis(ms: i64) -> SignedDuration { SignedDuration(ms / 250) }
+        pub fn from_nanos(ns: i64) -> SignedDuration { SignedDuration(ns / 250_000_000) }
+        pub fn as_millis(&self) -> i128 { self.0 as i128 * 250 }
+        pub fn as_nanos(&self) -> i128 { self.0 as i128 * 250_000_000 }
+        pub fn checked_add(self, o: SignedDuration) -> Option<SignedDuration> { self.0.checked_add(o.0).map(SignedDuration) }
+        pub fn saturating_add(self, o: SignedDuration) -> SignedDuration { SignedDuration(self.0.saturating_add(o.0)) }
         pub fn as_secs(&self) -> i64 { self.0 >> 2 }
     }
     impl TryFrom<std::time::Duration> for SignedDuration { type Error = (); fn try_from(d: std::time::Duration) -> Result<Self, ()> { let s = d.as_secs(); if s > (i64::MAX / TICKS_PER_SEC) as u64 { Err(()) } else { Ok(SignedDuration(verif_ticks(d))) } } }
